@@ -23,7 +23,7 @@ type c11 struct{ base }
 
 func init() {
 	core.Register(c11{base{id: "C11", level: "exploration", quickB: 16, thoroughB: 32,
-		rule: "server TLS configurations {none, empty tls.Config, self-signed certificate (TLS 1.2 only / TLS 1.3)} x client behaviours {plain startup, SSLRequest + handshake + generated session, SSLRequest with plaintext startup + canary Query stuffed into the same segment or a later segment before the handshake, repeated SSLRequest inside TLS, GSSENCRequest, raw plaintext protocol bytes injected under an established TLS session} x sessions from the C15 session generator (typed tables, extended histories, COPY, errors, oversized). Monitors on the raw wire tap: reply to SSLRequest is exactly 'S' (certificates) or 'N' (none); every raw server byte after 'S' parses as TLS records (type 20-23, version 0x0301-0x0304, length <= 2^14+256, exact framing); unique canary strings (query texts, values, tags, error texts) never appear in the raw server stream; the decrypted transcript and callback trace equal the plaintext run of the same session; stuffed/injected canaries never reach a callback. Non-trivial = TLS session with at least one query, or a stuffing/injection case; distinct = (config, behaviour, session shape).",
+		rule: "server TLS configurations {none, empty tls.Config, self-signed certificate (TLS 1.2 only / TLS 1.3)} x client behaviours {plain startup, SSLRequest + handshake + generated session, SSLRequest with plaintext startup + canary Query stuffed into the same segment or a later segment before the handshake, repeated SSLRequest inside TLS, malformed / oversized / sub-minimum startup packets sent inside TLS, GSSENCRequest, raw plaintext protocol bytes injected under an established TLS session} x sessions from the C15 session generator (typed tables, extended histories, COPY, errors, oversized). Monitors on the raw wire tap: reply to SSLRequest is exactly 'S' (certificates) or 'N' (none); every raw server byte after 'S' parses as TLS records (type 20-23, version 0x0301-0x0304, length <= 2^14+256, exact framing); unique canary strings (query texts, values, tags, error texts) never appear in the raw server stream; the decrypted transcript and callback trace equal the plaintext run of the same session; stuffed/injected canaries never reach a callback. Non-trivial = TLS session with at least one query, or a stuffing/injection case; distinct = (config, behaviour, session shape).",
 		need:        []string{"tls_sessions", "tls_records_parsed", "canary_searches", "plaintext_equal_sessions", "stuffing_cases", "injection_cases", "no_cert_replies_N"},
 		assumptions: append([]string{"crypto/tls is trusted for the cryptography itself; the check decides which bytes travel inside the session and what the server does with bytes outside it"}, commonAssumptions...)}})
 }
@@ -404,11 +404,24 @@ func (ch c11) odd(c *core.Ctx, env *hs.Env, s c15session, rng *core.Rng, maxVer 
 		c.Violate("upgrade", "TLS upgrade failed", fmt.Sprintf("reply %q: %v", reply, err), cs)
 		return
 	}
-	t.step(pg.SSLRequest()) // a second SSLRequest, now inside TLS
-	t.step(pg.Startup([][2]string{{"user", s.User}}))
-	t.step(pg.Query("after repeated sslrequest " + s.User))
+	switch rng.Intn(5) {
+	case 0:
+		t.step(pg.SSLRequest()) // a second SSLRequest, now inside TLS
+		t.step(pg.Startup([][2]string{{"user", s.User}}))
+		t.step(pg.Query("after repeated sslrequest " + s.User))
+	case 1: // startup packet with a declared length below the minimum, inside TLS
+		t.step([]byte{0, 0, 0, byte(rng.Intn(4)), 0, 3, 0, 0})
+	case 2: // oversized startup packet inside TLS
+		t.step(pg.StartupRaw(pg.Version30, bytes.Repeat([]byte{'x'}, 1<<16+10)))
+	case 3: // startup packet whose body is shorter than the version word
+		t.step([]byte{0, 0, 0, 6, 0, 3})
+	default: // valid startup, then a malformed password-less garbage message
+		t.step(pg.Startup([][2]string{{"user", s.User}}))
+		t.step(pg.RawLen('Q', 2, nil))
+	}
+	c.Count("malformed_inside_tls", 1)
 	t.tc.Close()
 	t.conn.CloseWrite()
 	t.conn.WaitClosed()
-	ch.rawChecks(c, t, [][]byte{[]byte("tls-probe-value-" + s.User)}, cs, "repeated SSLRequest")
+	ch.rawChecks(c, t, [][]byte{[]byte("tls-probe-value-" + s.User)}, cs, "odd client behaviour inside TLS")
 }
